@@ -9,6 +9,7 @@ NOTE = ("trusted: Lean 4.33 kernel; axioms propext/Classical.choice/Quot.sound o
 TECH = "Lean 4 theorems over a model tied to the source by regenerated fact tables and by differential correspondence (impl vs compiled Lean model)"
 # id -> (claimed?, level text, design ref, reason if not claimed)
 CLAIMS = {
+ "C13": ("theorems: inflation_bound (supply after AllocateTokens <= max(supply, snapshot + floor(snapshot*rate*dt/period) + 1), all inputs, from exact LegacyDec rounding lemmas), annual_gate + gate_closed_iff, ubi_hardcap_partial / ubi_hardcap_counterexample (real uint64 arithmetic: the hard-cap test is exact without wrap-around and FALSE with it - recorded finding), ubi_once_per_period, supply_tracks_mints, supply_le_cap, owner_cannot_raise_cap, mint_burn_sites (regenerated table of every MintCoins/BurnCoins call site). Correspondence: the real distributor keeper, UBI proposal handler and EndBlocker, tokens keeper and msg server vs the Lean functions on boundary-heavy inputs", "section 5 C13"),
  "C08": ("theorems: tally_exact (the float32 ProcessResult equals the exact rule yes*2>votes / veto*2>=veto-capable / others*2>=votes for EVERY vote vector with at most 2^24 votes and voters — proved from an executable IEEE-754 round-to-nearest-even model, not sampled) and tally_inexact_beyond (the bound is tight); over ALL histories of submit / vote / end-of-block (invariant + induction): applied_at_most_once, applied_only_if_passed (quorum and passed tally at a tally performed after voting end and min height), applied_after_delay, late_vote_rejected, vote_requires_permission_now, revote_replaces, final_result_stable. Correspondence: ProcessResult and IsQuorum as pure functions (exhaustive small vectors, random large ones, decimal boundaries) and lifecycle histories with deadlines straddled by +-1 s on the real gov msg server and EndBlocker vs the Lean model (proposal records, both queues, votes, applied set compared after every step)", "section 5 C08"),
  "C07": ("theorems: check_iff_rule / checkAllowed_iff_rule (the four-pass permission map equals 'whitelisted directly or via a role and blacklisted nowhere', all configurations, no size bound); inv_step / inv_reach (the three secondary indexes equal the records after every sequence of the 11 edit operations, by induction); voters_exact (the index walk used for quorum = exactly the actors whose own or role whitelist carries the permission); gated_only_holders; gate table of every msg-server method and proposal content regenerated from source and compared (rfl) with the expectation. Correspondence: random edit histories + exhaustive small scope + gated messages on the real keeper vs the Lean model, with records, raw index dumps, voter sets and checks compared line by line", "section 5 C07"),
  "C19": ("theorems for every arm of the Get/SetNetworkProperty switch and every ValidateNetworkProperties condition, both REGENERATED from the Go source on every run: read-back, frame, rejected-unchanged, stored-always-valid, validation implies the stated validity rules; correspondence: every id x boundary value x {keeper, proposal} path + random sequences + message path, implementation vs Lean interpreter line by line", "section 5 C19"),
